@@ -928,9 +928,8 @@ class SimpleShape(DefinedShape):
             return False
         if areaA > 0:
             return True
-        # If simple shape is not a square
-        # may happens error here
-        return True
+        # Both are unbounded: compare the bounded complements
+        return (~self) in (~other)
 
 
 class ConnectedShape(DefinedShape):
